@@ -85,7 +85,7 @@ m = {
    {"name": "expat_xcheck", "path": "drivers/expat_xcheck.py", "serves_properties": ["C02","C08"], "kind_free_text": "binds the in-house XML parser to expat (exhaustive over the character domain) and lets expat judge every distinct output"},
  ],
  "checks": [],
- "notes": "All checks: exit 0 held / 1 violation / 2 machinery error. Known findings in known_findings.json.",
+ "notes": "All checks: exit 0 held / 1 violation (with a VIOLATION line and a replay file) / 2 machinery error (never a verdict). Known findings and fixed defects: known_findings.json. Seeded changes and which check catches which: seeded/RESULTS.md. Every quick check finishes in under a minute on 16 idle cores; thorough tiers have an internal budget (default 3600 s, VERIF_BUDGET_S) and report scopes they could not finish as exhaustive=false.",
  "not_applicable": [],
 }
 for pid in allp:
